@@ -8,6 +8,8 @@ CONSTANTS
   ZeroFix = TRUE
   OffsetErrFix = TRUE
   LateNotice = FALSE
+  Twin = FALSE
+  PathLockFix = TRUE
 CONSTRAINT TypeOK
 CONSTRAINT DCompleteIsIdentical
 CONSTRAINT PrefixKept
